@@ -319,7 +319,13 @@ class SchemaBuilder(
                     self._object_schema(cls, field)
                 )
         alias_by_names = {f.name: f.alias for f in fields}.__getitem__
-        dependent_required = get_dependent_required(cls)
+        properties_by_name = {p.name: p for p in properties}
+        # fields can be absent of the schema (skipped, init=False/InitVar fields)
+        dependent_required = {
+            f: [req for req in reqs if req in properties_by_name]
+            for f, reqs in get_dependent_required(cls).items()
+            if f in properties_by_name
+        }
         result = []
         if discriminator_parent := get_discriminated_parent(cls):
             discriminator_ref = self.ref_schema(
